@@ -437,7 +437,7 @@ class SuitEncryptionInfoExt(SuitBstr):
         return super().from_cbor(super().deserialize_cbor(enc_info_bytes))
 
     @classmethod
-    def from_cbor(self) -> dict:
+    def from_cbor(cls, cbstr: bytes) -> dict:
         """Restore SUIT representation from passed CBOR string."""
         raise ValueError("Encryption info should be created as serialized CoseEncryptTagged object from cbor")
 
